@@ -37,10 +37,10 @@ Definition init_noint : ctxspec :=
      mkArg ["help"; "h"] KStr ANone false true false None;
      mkArg ["config"; "f"] KStr ANone false false false None].
 
-Lemma guard_core_small : c07_guard false small_cs (Some core_ctx) = true.
+Lemma guard_core_small : c07_guard small_cs (Some core_ctx) = true.
 Proof. vm_compute. reflexivity. Qed.
 
-Lemma guard_strict_example : c07_guard true [ctx_t_noint; ctx_p] (Some init_noint) = true.
+Lemma guard_strict_example : c07_guard [ctx_t_noint; ctx_p] (Some init_noint) = true.
 Proof. vm_compute. reflexivity. Qed.
 
 Lemma strict_example_parses :
@@ -49,18 +49,21 @@ Lemma strict_example_parses :
             /\ List.length (pr_ctxs r) = 3.
 Proof. eexists. split; vm_compute; reflexivity. Qed.
 
-(** F-C07a: a non-integer value for an int-valued flag -> ValueError. *)
-Lemma refuted_int :
-  exists cs init argv,
-    c07_guard false cs init = true /\ parser_parse cs init false argv = Err EValue.
-Proof.
-  exists small_cs, (Some core_ctx), ["t"; "--num=abc"].
-  split; vm_compute; reflexivity.
-Qed.
+(** Since repair 401bc73 (F-C07a fixed): a non-integer value for an int-valued
+    flag or positional is a ParseError. *)
+Lemma int_value_is_parse_error :
+  c07_guard small_cs (Some core_ctx) = true /\
+  parser_parse small_cs (Some core_ctx) false ["t"; "--num=abc"] = Err EParse /\
+  parser_parse [] (Some core_ctx) true ["-T"; "abc"] = Err EParse.
+Proof. repeat split; vm_compute; reflexivity. Qed.
 
-Lemma refuted_int_core :
-  parser_parse [] (Some core_ctx) true ["-T"; "abc"] = Err EValue.
-Proof. vm_compute. reflexivity. Qed.
+(** Historical record (behaviour before 401bc73, kept for the register): the
+    conversion itself still raises ValueError -- [Argument.set_value] is
+    unchanged; what changed is that the parse machine now catches it. *)
+Lemma argument_cast_still_raises_value_error :
+  set_value (init_arg (mkArg ["num"; "u"] KInt (AInt 1%Z) false false false None)) (IStr "abc") true
+  = Err EValue.
+Proof. reflexivity. Qed.
 
 (** F-C07b: no initial context + a short-flag cluster -> AttributeError. *)
 Lemma refuted_no_initial :
@@ -70,7 +73,7 @@ Proof. exists small_cs, ["-abc"]. split; vm_compute; reflexivity. Qed.
 (** F-C07c: a list-kind flag left without a value is accepted. *)
 Lemma refuted_list :
   exists cs init argv r,
-    c07_guard false cs init = true /\
+    c07_guard cs init = true /\
     parser_parse cs init false argv = Ok r /\
     spec_ok cs init false argv (Ok (obs_of_presult r)) = false.
 Proof.
@@ -82,7 +85,7 @@ Qed.
     flag, or positionally) and is now left without one is accepted. *)
 Lemma refuted_repeat :
   exists cs init argv r,
-    c07_guard false cs init = true /\
+    c07_guard cs init = true /\
     parser_parse cs init false argv = Ok r /\
     spec_ok cs init false argv (Ok (obs_of_presult r)) = false.
 Proof.
@@ -98,7 +101,7 @@ Proof. eexists. split; vm_compute; reflexivity. Qed.
 (** ** Bounded sweep (a test): every command line of at most [n] tokens over a
     14-token alphabet against the two tasks above and the real core context.
     The model's outcome satisfies the complete [spec_ok] except inside the
-    catalogued findings (ValueError; dangling value flag accepted). *)
+    catalogued findings (dangling value flag accepted). *)
 Definition sweep_alpha : list string :=
   ["t"; "p"; "--name"; "-n"; "-u5"; "--name=x"; "x"; "-f"; "--"; "-fn"; "--lst"; "--opt";
    "--no-yes"; "-e"].
@@ -114,7 +117,6 @@ Fixpoint seqs (n : nat) (alpha : list string) : list (list string) :=
 Definition excused (cs : list ctxspec) (init : option ctxspec) (argv : list string)
            (obs : result pobs) : bool :=
   match obs with
-  | Err EValue => true
   | Ok o => b2_dangling_flag cs init (before_ddash argv) o
   | _ => false
   end.
